@@ -719,6 +719,7 @@ func main() {
 		fmt.Fprintln(os.Stderr, err)
 		os.Exit(2)
 	}
+	problems = append(problems, genIRHandlers(repo, out)...)
 	for _, p := range problems {
 		fmt.Println("PROBLEM " + p)
 	}
